@@ -392,7 +392,15 @@ class DocGen:
                     if self.s.is_composite(named(fd.type)):
                         f.sels = [Field("__typename")]
                 op.sels = [f]
-                if t.chance(k["repeat_pct"]):
+                host = [u for u, td in s.types.items() if td.kind == "UNION" and root in td.members and len(td.members) >= 2]
+                if host and t.chance(40):
+                    # the root field reached through a fragment on a union the root type belongs to, next to a fragment
+                    # on ANOTHER member (which does not apply to the root type and therefore selects nothing)
+                    un = t.choose(host)
+                    other = t.choose([m for m in s.types[un].members if m != root])
+                    op.sels = [Inline(un, None, [Inline(other, None, [Field("__typename", "tnOther")]), Inline(root, None, [f])])]
+                    self.probe("subscription_root_through_union_fragment")
+                elif t.chance(k["repeat_pct"]):
                     # the single root field selected again, identically (one response key: still one root field)
                     import copy as _copy
                     twin = _copy.deepcopy(f)
